@@ -12,7 +12,8 @@ Local Open Scope string_scope.
 
 (* every object with static storage duration (namespace scope, static members,
    function-local statics) is constexpr or const, and none is thread_local *)
-Definition immutable_static (s : static_row) : bool := (s_constexpr s || s_const s) && negb (s_thread_local s).
+Definition immutable_static (s : static_row) : bool :=
+  (s_constexpr s || s_const s) && negb (s_thread_local s) && negb (s_mutable s).
 Theorem c20_no_mutable_statics : forallb immutable_static gen_statics = true.
 Proof. vm_compute. reflexivity. Qed.
 
